@@ -16,20 +16,28 @@ OpsWeak == OpsCore \cup {"Downgrade", "Upgrade", "UpgradeStored", "WeakClone", "
 
 OpsWeakQ == {"New", "CloneRoot", "DropRoot", "AdoptStore", "TakeUnadopt", "DropStored", "Store",
              "Downgrade", "Upgrade", "UpgradeStored", "WeakDrop", "StoreWeak"}
-CapsS == [strong |-> 2, stored |-> 1, rec |-> 1, weak |-> 1, storedW |-> 1, over |-> TRUE, elide |-> TRUE]
-CapsS3 == [strong |-> 3, stored |-> 2, rec |-> 2, weak |-> 1, storedW |-> 1, over |-> TRUE, elide |-> TRUE]
-Caps2 == [strong |-> 3, stored |-> 2, rec |-> 2, weak |-> 1, storedW |-> 1, over |-> FALSE, elide |-> FALSE]
-CapsQ == [strong |-> 2, stored |-> 1, rec |-> 1, weak |-> 1, storedW |-> 1, over |-> FALSE, elide |-> FALSE]
-CapsM == [strong |-> 3, stored |-> 1, rec |-> 1, weak |-> 1, storedW |-> 1, over |-> FALSE, elide |-> FALSE]
-CapsW == [strong |-> 2, stored |-> 1, rec |-> 1, weak |-> 1, storedW |-> 1, over |-> FALSE, elide |-> FALSE]
-CapsWM == [strong |-> 2, stored |-> 1, rec |-> 1, weak |-> 2, storedW |-> 1, over |-> FALSE, elide |-> FALSE]
-CapsT == [strong |-> 2, stored |-> 1, rec |-> 1, weak |-> 1, storedW |-> 1, over |-> FALSE, elide |-> FALSE]
-CapsWT == [strong |-> 2, stored |-> 1, rec |-> 1, weak |-> 1, storedW |-> 1, over |-> FALSE, elide |-> FALSE]
-Caps3 == [strong |-> 3, stored |-> 1, rec |-> 1, weak |-> 1, storedW |-> 1, over |-> FALSE, elide |-> FALSE]
+CapsS == [strong |-> 2, stored |-> 1, rec |-> 1, weak |-> 1, storedW |-> 1, over |-> TRUE, elide |-> TRUE, scripted |-> 1]
+CapsS3 == [strong |-> 3, stored |-> 2, rec |-> 2, weak |-> 1, storedW |-> 1, over |-> TRUE, elide |-> TRUE, scripted |-> 1]
+Caps2 == [strong |-> 3, stored |-> 2, rec |-> 2, weak |-> 1, storedW |-> 1, over |-> FALSE, elide |-> FALSE, scripted |-> 1]
+CapsQ == [strong |-> 2, stored |-> 1, rec |-> 1, weak |-> 1, storedW |-> 1, over |-> FALSE, elide |-> FALSE, scripted |-> 1]
+CapsM == [strong |-> 3, stored |-> 1, rec |-> 1, weak |-> 1, storedW |-> 1, over |-> FALSE, elide |-> FALSE, scripted |-> 1]
+CapsW == [strong |-> 2, stored |-> 1, rec |-> 1, weak |-> 1, storedW |-> 1, over |-> FALSE, elide |-> FALSE, scripted |-> 1]
+CapsWM == [strong |-> 2, stored |-> 1, rec |-> 1, weak |-> 2, storedW |-> 1, over |-> FALSE, elide |-> FALSE, scripted |-> 1]
+CapsT == [strong |-> 2, stored |-> 1, rec |-> 1, weak |-> 1, storedW |-> 1, over |-> FALSE, elide |-> FALSE, scripted |-> 1]
+CapsWT == [strong |-> 2, stored |-> 1, rec |-> 1, weak |-> 1, storedW |-> 1, over |-> FALSE, elide |-> FALSE, scripted |-> 1]
+Caps3 == [strong |-> 3, stored |-> 1, rec |-> 1, weak |-> 1, storedW |-> 1, over |-> FALSE, elide |-> FALSE, scripted |-> 1]
 VPinned == [bust |-> "out", loop |-> "split", consume |-> "ignore"]
 VFixed  == [bust |-> "owned", loop |-> "ignored", consume |-> "ignore"]
 VFixA   == [bust |-> "owned", loop |-> "split", consume |-> "ignore"]
 MenuPlain == {NoScript}
+Sc(o, i, j) == [op |-> o, x |-> i, y |-> j]
+MenuC16 == {NoScript} \cup {Sc(o, i, 0) : o \in {"CloneStored", "DropStored"}, i \in Obj}
+MenuC05 == {NoScript} \cup {Sc(o, i, 0) : o \in {"UpgradeWeak", "UpgradeStored"}, i \in Obj}
+MenuC10 == {NoScript} \cup {Sc(o, i, 0) : o \in {"CloneRoot", "DropRoot", "Downgrade", "WeakDrop", "UpgradeWeak", "UpgradeStored"}, i \in Obj}
+                      \cup {Sc(o, i, j) : o \in {"Adopt", "Unadopt"}, i \in Obj, j \in Obj}
+MenuPanic == {NoScript, Sc("Panic", 0, 0)}
+OpsDtor == {"New", "CloneRoot", "DropRoot", "Store", "AdoptStore", "TakeUnadopt", "DropStored",
+            "Downgrade", "WeakDrop", "StoreWeak", "Upgrade"}
 
 MCInit == Init /\ hist = <<>>
 
@@ -60,6 +68,11 @@ MC_C05 == Cex("C05", C05)
 MC_C06 == Cex("C06", C06)
 MC_C08 == Cex("C08", C08)
 MC_C14 == Cex("C14", C14)
+MC_C16 == Cex("C16", C16)
+\* C10: the guarantees C01-C06 with re-entrant destructors, and no internal borrow conflict
+MC_C10 == Cex("C10", C01 /\ C02 /\ C03 /\ C04 /\ C05 /\ C06)
+\* C11: a panicking destructor: nothing dies twice, nothing reachable is harmed, Weak reports dead
+MC_C11 == Cex("C11", C01 /\ C02 /\ C05 /\ ctl.mode # "aborted")
 
 \* simulation mode: a behaviour is cut (and printed as one script) after SimLen calls
 CONSTANTS SimLen
